@@ -162,7 +162,12 @@ def cases(tier, seed):
         for a in ALGS:
             if a in ("Cholesky", "CG") and not is_psd_term(t):
                 continue
-            if tier == "quick" and a in ("GMRES_default", "GMRES_n3") and t[0] not in ("Dense", "Ann", "matmul", "kron"):
+            from mc.refmodel import size as _size
+            if a == "GMRES_default" and (_size(t) > (0 if tier == "quick" else 1) or (tier == "thorough" and _size(t) == 1 and t[0] not in ("matmul", "kron", "T"))):
+                continue  # max_iters=1000 allocates 1000 x 1000 Hessenberg systems: leaves only (thorough: also @, kron, T at depth 1)
+            if tier == "quick" and _size(t) > 0 and a in ("Auto", "LU", "GMRES_n3"):
+                continue  # quick: nestings with {omitted, Cholesky, CG, GMRES_n}; all 8 algorithms on the leaves
+            if tier == "quick" and a == "GMRES_n3" and t[0] not in ("Dense", "Ann", "matmul", "kron", "Tri", "Diag", "Scalar", "Perm"):
                 continue
             out.append([t, a])
     for n in (1000, 1001):
